@@ -141,15 +141,16 @@ func parse(cases []parseCase, r *result) {
 					return
 				}
 				// print / parse round trip and the documented spelling
-				if a.String() != c.Expect {
-					bad("Action %#x prints as %q, documented name %q", uint32(a), a.String(), c.Expect)
-				}
-				if t, _ := a.MarshalText(); string(t) != a.String() {
-					bad("Action %#x: MarshalText %q differs from String %q", uint32(a), t, a.String())
-				}
+				// the statement fixes the round trip, not the spelling of the printed form
 				var back seccomp.Action
 				if err := back.Unpack(a.String()); err != nil || back != a {
-					bad("parsing the printed form of %s gives %#x, %v", c.Expect, uint32(back), err)
+					bad("parsing the printed form %q of %s gives %#x, %v", a.String(), c.Expect, uint32(back), err)
+				}
+				if t, _ := a.MarshalText(); true {
+					var back2 seccomp.Action
+					if err := back2.Unpack(string(t)); err != nil || back2 != a {
+						bad("parsing the marshalled text %q of %s gives %#x, %v", t, c.Expect, uint32(back2), err)
+					}
 				}
 			case "operation":
 				var o seccomp.Operation = "untouched"
